@@ -91,7 +91,7 @@ func c12Compose(t *testing.T, rep *hx.Report, rng *hx.RNG, kern *c12Kernel, perV
 					}
 					rep.Violate(hx.Violation{Kind: "spec",
 						What: fmt.Sprintf("the %s filter drops a %s frame that the Source hands to the %s matcher as a packet it turns into a hop (%s): with filtering enabled this reply is lost", flt.Name, alt.name, v, st.Impl),
-						Sig:  map[string]string{"defect": "matchable-frame-filtered", "framing": alt.name, "stream": "compose"},
+						Sig:  map[string]string{"defect": map[bool]string{true: "ethertype-version-mismatch-filtered", false: "matchable-frame-filtered"}[alt.name == "ethertype-of-the-other-ip-version"], "framing": alt.name, "stream": "compose"},
 						Replay: map[string]any{"variant": v, "config": mc.Cfg.oraclePrefix(), "filter": flt.token(), "frame": hx2(alt.frame), "form": form, "framing": alt.name,
 							"matcher_outcome": st.Impl, "filter_verdict": "drop"}})
 				}
@@ -143,7 +143,12 @@ func c12AltFramings(pkt []byte, v6 bool) []c12Framing {
 		}
 		return out
 	}
+	other := []byte{0x86, 0xdd}
+	if v6 {
+		other = []byte{0x08, 0x00}
+	}
 	return []c12Framing{
+		{"ethertype-of-the-other-ip-version", cat(mac, other, pkt)},
 		{"vlan-802.1q", cat(mac, []byte{0x81, 0x00, 0x00, 0x64}, et, pkt)},
 		{"qinq-802.1ad", cat(mac, []byte{0x88, 0xa8, 0x00, 0x0a, 0x81, 0x00, 0x00, 0x64}, et, pkt)},
 		{"llc-snap", cat(mac, []byte{0, byte(8 + len(pkt)), 0xaa, 0xaa, 0x03, 0, 0, 0}, et, pkt)},
